@@ -12,6 +12,8 @@ Binders
      a window of a padded string. Malformed texts and option strings must give ParseException.
      Family C (RegexGen.C.quick.cfg): every range class [x-y]/[^x-y] over {-,1,a,b} under *, +, {1,} followed by every such class
      (disjoint, shared end point, overlap, containment: the closure must give characters back) and every class of two ranges.
+     Family D (RegexGen.D.quick.cfg): x(lit){f}y, (lit){f}y, x(lit){f} with lit of 2-3 characters, f in {0,1} {0,2} {0,} {1,2} ? *,
+     strings over {a,b} up to length 5 (fixed-string pre-filter: F vs non-F option sets).
   P  the same lines through the xs:pattern facet of a string DatatypeValidator (the path schema validation takes).
   W  spec/RegexWalk.tla: one compiled object reused over a TLC-chosen sequence of matches / matches+Match / tokenize /
      replace calls (history independence); tokenize/replace results must be one of the cuts the specification allows.
@@ -50,10 +52,10 @@ META = dict(
 )
 
 CONSTS = {
-    "quick": dict(check=["Regex.quick.cfg"], selfcheck="RegexGen.selfcheck.cfg", gens=["RegexGen.A.quick.cfg", "RegexGen.B.quick.cfg", "RegexGen.C.quick.cfg"],
+    "quick": dict(check=["Regex.quick.cfg"], selfcheck="RegexGen.selfcheck.cfg", gens=["RegexGen.A.quick.cfg", "RegexGen.B.quick.cfg", "RegexGen.C.quick.cfg", "RegexGen.D.quick.cfg"],
                   walks=[("RegexWalk.cfg", 60), ("RegexWalk.A.cfg", 30)], wdepth=14),
     "thorough": dict(check=["Regex.quick.cfg", "Regex.thorough.cfg"], selfcheck="RegexGen.selfcheck.cfg",
-                     gens=["RegexGen.A.thorough.cfg", "RegexGen.B.thorough.cfg", "RegexGen.C.quick.cfg"],
+                     gens=["RegexGen.A.thorough.cfg", "RegexGen.B.thorough.cfg", "RegexGen.C.quick.cfg", "RegexGen.D.quick.cfg"],
                      walks=[("RegexWalk.cfg", 600), ("RegexWalk.A.cfg", 300)], wdepth=14),
 }
 WORKERS = 8
